@@ -64,5 +64,7 @@ Record tables2 := {
   t2_find : list (string * sw_arm);               (* findSwaggerType: oneof case -> what it returns *)
   t2_composite : list string;                     (* isComposite: oneof cases that are composite *)
   t2_types_loop : loop_order;                     (* populateTypes: loop over syslTypes *)
-  t2_attrs_loop : loop_order                      (* populateTypes: loop over memberTypes *)
+  t2_attrs_loop : loop_order;                     (* populateTypes: loop over memberTypes *)
+  t2_members_fresh : bool                         (* populateTypes: `memberTypes := map...{}` is executed in every iteration
+                                                     of the loop over the types (declared inside its body) *)
 }.
